@@ -3,6 +3,7 @@ package main
 import (
 	"fmt"
 	"go/types"
+	"os"
 	"sort"
 	"strings"
 
@@ -168,9 +169,20 @@ func (x *fnCtx) startAtHeader(st *State, fr *Frame, h *ssa.BasicBlock, ord int) 
 	if x.writes["*"] {
 		epochCounter++
 		alloc := st.heap.m["$alloc"]
+		oldh := st.heap
 		st.heap = &Heap{m: map[string]*Term{}, epoch: epochCounter}
 		if alloc != nil {
 			st.heap.m["$alloc"] = alloc
+		}
+		// immutable / stable fields that this function does not write keep their entry value
+		_ = oldh // immutable / stable components resolve to their entry symbol in Heap.get;
+		// those written by this function are unknown at the header
+		for name := range stableHeapNames {
+			if len(x.writePos[name]) > 0 {
+				if srt, ok := heapSorts[name]; ok {
+					st.heap.m[name] = Sym(fmt.Sprintf("H.%s@L%d", name, ord), srt)
+				}
+			}
 		}
 	} else {
 		names := make([]string, 0, len(x.writes))
@@ -260,6 +272,14 @@ func (x *fnCtx) startAtHeader(st *State, fr *Frame, h *ssa.BasicBlock, ord int) 
 			fr.names[phi.Comment] = nameBind{v: v}
 		}
 	}
+	// ghost bindings made once outside all loops are visible under their stable symbol
+	for _, td := range x.con.Traces {
+		if td.As != "" && x.bindOutsideLoops(td) {
+			if t := x.bindType(td); t != nil {
+				st.ghost[td.As] = freshVal(t, "ghost."+x.short+"."+td.As, true)
+			}
+		}
+	}
 	// locks held at the header are described by invariants `held(...)`; assume invariants
 	env := &specEnv{x: x, st: st, heap: st.heap, old: fr.oldHeap, names: fr.names, fr: fr}
 	for _, cl := range x.con.Clauses {
@@ -346,7 +366,13 @@ func (x *fnCtx) arriveAtHeader(st *State, fr *Frame, h, pred *ssa.BasicBlock, or
 
 // checkPost: postconditions, frame, trace and lock clauses at a normal return of the top frame.
 func (x *fnCtx) checkPost(st *State, fr *Frame, res []*Val) {
-	names := x.paramNames(fr)
+	names := map[string]nameBind{}
+	for k, v := range fr.names {
+		names[k] = v // locals as of the return (used by trace conditions)
+	}
+	for k, v := range x.paramNames(fr) {
+		names[k] = v // parameters denote their entry values
+	}
 	results := x.fn.Signature.Results()
 	for i, r := range res {
 		if i < results.Len() && results.At(i).Name() != "" {
@@ -439,15 +465,31 @@ func (x *fnCtx) checkTrace(st *State, env *specEnv, kind string) {
 		if !cl.appliesTo(x.eng.prop) {
 			continue
 		}
-		ok, err := traceMatches(cl.Arg, st.trace)
+		pat := cl.Arg
+		neg := strings.HasPrefix(pat, "!")
+		pat = strings.TrimPrefix(pat, "!")
+		if st.from != "entry" && strings.HasPrefix(pat, "^") {
+			// the event prefix of a path that starts at a loop header is unknown: ^-anchored
+			// patterns are decided on entry paths only; suffix patterns (and negated ones: the
+			// events after the loop) on every path
+			x.eng.logAbs("%s: ^-anchored trace clauses are not checked on paths starting at a loop header", x.short)
+			continue
+		}
+		ok, err := traceMatches(pat, st.trace)
 		if err != nil {
 			x.fail("bad trace pattern %q: %v", cl.Arg, err)
+		}
+		if neg {
+			ok = !ok
 		}
 		cond := x.evalSpecBool(env, cl.Cond)
 		if ok {
 			// count the obligation as generated even when it is decided syntactically
 			x.eng.noteTrivial(fmt.Sprintf("%s/%s/%s#%d", x.eng.prop, x.short, kind, cl.Ord), x.short, kind, cl.Ord, cl.Text)
 			continue
+		}
+		if os.Getenv("GOWP_DEBUG_TRACE") != "" {
+			fmt.Fprintf(os.Stderr, "TRACE %s %s#%d: [%s]\n", x.short, kind, cl.Ord, strings.TrimSpace(traceString(st.trace)))
 		}
 		x.addVC(st, x.short, kind, cl.Ord, "", Not(cond), fmt.Sprintf("event trace [%s] must match %s when %s", strings.TrimSpace(traceString(st.trace)), cl.Arg, cl.Cond.String()), cl.Line)
 	}
@@ -596,7 +638,13 @@ func (x *fnCtx) builtin(st *State, fr *Frame, in ssa.Instruction, b *ssa.Builtin
 		ch := args[0]
 		closed := x.heapArr(st, "$chanclosed", ArrSort(SInt, SBool))
 		if x.eng.cfg.Layers["safety"] {
-			x.addVC(st, x.curShort(fr), "call", x.ord(fr, in), "close", And(Ne(ch.L[0], IntLit(0)), Not(Select(closed, ch.L[0]))), "close of nil or closed channel", x.eng.posStr(in.Pos()))
+			kind := "call"
+			if ch.Src != nil {
+				if ts, g := x.chanGuardOf(ch.Src); ts != nil && g != nil {
+					kind = "chanclose" // decided in the concurrent pass: needs the guarding lock
+				}
+			}
+			x.addVC(st, x.curShort(fr), kind, x.ord(fr, in), "close", And(Ne(ch.L[0], IntLit(0)), Not(Select(closed, ch.L[0]))), "close of nil or closed channel", x.eng.posStr(in.Pos()))
 		}
 		x.setHeap(st, "$chanclosed", Store(closed, ch.L[0], True))
 		return nil
